@@ -242,6 +242,33 @@ pub fn draw(r: &mut Rng, profile: Profile, enabled: &[String]) -> (E1Config, Kno
         prefixes,
         writers,
     };
+    // swarm: each run scales its command mix, sometimes switching a kind off entirely
+    {
+        let mut sc = |w: &mut u32, may_disable: bool| {
+            let f = *r.pick(&[0u32, 1, 2, 2, 2, 2, 4, 6]);
+            if f == 0 && !may_disable {
+                return;
+            }
+            *w = *w * f / 2;
+        };
+        sc(&mut k.w_write, false);
+        sc(&mut k.w_tick, true);
+        sc(&mut k.w_syn, true);
+        sc(&mut k.w_deliver, false);
+        sc(&mut k.w_gc, true);
+        sc(&mut k.w_advance, false);
+        sc(&mut k.w_eval, true);
+        sc(&mut k.w_crash, true);
+        sc(&mut k.w_join, true);
+        sc(&mut k.w_catchup, true);
+        sc(&mut k.w_partition, true);
+        sc(&mut k.w_sub, true);
+        sc(&mut k.w_handshake, true);
+        sc(&mut k.w_round, true);
+        if k.w_tick + k.w_syn + k.w_handshake + k.w_round == 0 {
+            k.w_syn = 8;
+        }
+    }
     if enabled.iter().any(|e| e == "C18") {
         k.w_catchup = 12;
     }
